@@ -125,6 +125,36 @@ Theorem shared_group_invocation_refuted :
 Proof. exact sharing_breaks_counts. Qed.
 Print Assumptions shared_group_invocation_refuted.
 
+(* Options and parallelized lists (facts generated from app.py direct_task, task.py distribute_batch_calls and
+   prepare_arguments).  The max_retries a direct task runs with is the one its decorator was given - explicit 0
+   included, whatever the app-level value - so the retry accounting above speaks about the DECLARED option;
+   the batches of a parallelized list reach every call (n calls, any batch size b > 0: all n routed; floor
+   division would lose the trailing partial batch); each call receives its own parameters over a fresh copy of
+   common_args (one dict updated in place would leak keys of earlier calls into later ones). *)
+Theorem direct_task_runs_with_declared_options : forall app h d,
+  gen_direct_option d app = d /\ direct_header app h = h.
+Proof. exact (fun app h d => conj (direct_option_declared d app) (direct_header_declared app h)). Qed.
+Print Assumptions direct_task_runs_with_declared_options.
+
+Theorem batches_route_every_call : forall n b, 0 < b -> routed n b = n.
+Proof. exact routed_all. Qed.
+Print Assumptions batches_route_every_call.
+
+Theorem floor_division_batches_refuted : Nat.min 7 (Nat.max 1 (Nat.div 7 3) * 3) = 6 /\ routed 7 3 = 7.
+Proof. exact floor_batches_lose_the_tail. Qed.
+Print Assumptions floor_division_batches_refuted.
+
+Theorem each_call_receives_its_own_arguments : forall common calls,
+  received_kwargs common calls = map (kw_update common) calls.
+Proof. exact received_own_kwargs. Qed.
+Print Assumptions each_call_receives_its_own_arguments.
+
+Theorem shared_kwargs_dict_refuted :
+  merged_calls false [(0, 2)] [(0, 2)] [[(1, 5)]; []] = [[(0, 2); (1, 5)]; [(0, 2); (1, 5)]] /\
+  merged_calls true [(0, 2)] [(0, 2)] [[(1, 5)]; []] = [[(0, 2); (1, 5)]; [(0, 2)]].
+Proof. exact in_place_update_leaks. Qed.
+Print Assumptions shared_kwargs_dict_refuted.
+
 (* The distributed retry bookkeeping is not atomic: as long as the generated fact says RETRY is published
    before the counter is incremented, the schedule "re-run before the increment lands" executes an
    always-raising body max_retries+2 times (known finding retry-race:stale-counter); with the increment
